@@ -65,8 +65,9 @@ def main():
     saved = os.dup(1), os.dup(2)
     os.dup2(fd, 1)
     os.dup2(fd, 2)
-    sys.stdout = os.fdopen(1, "w", closefd=False)
-    sys.stderr = os.fdopen(2, "w", closefd=False)
+    # the console streams keep the encoding and error policy the interpreter chose at start-up (locale, PYTHONIOENCODING)
+    sys.stdout = os.fdopen(1, "w", closefd=False, encoding=sys.__stdout__.encoding or "utf-8", errors=sys.__stdout__.errors or "strict")
+    sys.stderr = os.fdopen(2, "w", closefd=False, encoding=sys.__stderr__.encoding or "utf-8", errors=sys.__stderr__.errors or "backslashreplace")
 
     if trial.get("crash_at"):
         # "another project analysed before and crashed": die at the k-th mutating file-system event
